@@ -337,6 +337,9 @@ impl Accept {
         let next = self.next();
         match next.send(conn) {
             Ok(_) => {
+                #[cfg(actix_net_verif)]
+                verif::yield_point();
+
                 // Increment counter of WorkerHandle.
                 // Set worker to unavailable with it hit max (Return false).
                 if !next.inc_counter() {
@@ -459,4 +462,228 @@ fn connection_error(e: &io::Error) -> bool {
     e.kind() == io::ErrorKind::ConnectionRefused
         || e.kind() == io::ErrorKind::ConnectionAborted
         || e.kind() == io::ErrorKind::ConnectionReset
+}
+
+/// Verification hooks (compiled only with `--cfg actix_net_verif`): a stepped driver around the
+/// real [`Accept`] so a harness can call the accept loop's functions one at a time.
+#[cfg(actix_net_verif)]
+pub mod verif {
+    #![allow(missing_docs, private_interfaces, missing_debug_implementations)]
+
+    use std::{cell::RefCell, os::unix::io::AsRawFd};
+
+    use tokio::sync::mpsc::{unbounded_channel, UnboundedReceiver};
+
+    use super::*;
+    use crate::{server::ServerCommand, waker_queue::WakerInterest, worker::verif::AcceptHandle};
+
+    thread_local! {
+        static YIELD: RefCell<Option<Box<dyn FnMut()>>> = RefCell::new(None);
+    }
+
+    /// Install (or remove) the callback run between `send(conn)` and `inc_counter()`.
+    pub fn set_yield_hook(f: Option<Box<dyn FnMut()>>) {
+        YIELD.with(|y| *y.borrow_mut() = f);
+    }
+
+    pub(super) fn yield_point() {
+        let f = YIELD.with(|y| y.borrow_mut().take());
+        if let Some(mut f) = f {
+            f();
+            YIELD.with(|y| {
+                let mut y = y.borrow_mut();
+                if y.is_none() {
+                    *y = Some(f);
+                }
+            });
+        }
+    }
+
+    /// Opaque wrapper of the (crate-private) waker queue.
+    #[derive(Clone)]
+    pub struct Wq(pub(crate) WakerQueue);
+
+    /// Opaque wrapper of the (crate-private) listener enum.
+    pub struct Listener(pub(crate) MioListener);
+
+    impl Listener {
+        pub fn tcp(lst: std::net::TcpListener) -> Self {
+            Listener(MioListener::from(lst))
+        }
+
+        pub fn uds(lst: std::os::unix::net::UnixListener) -> Self {
+            Listener(MioListener::from(lst))
+        }
+    }
+
+    /// Commands a server sends to the accept loop through the waker queue.
+    #[derive(Debug, Clone, Copy)]
+    pub enum Cmd {
+        Pause,
+        Resume,
+        Stop,
+    }
+
+    /// The real `Accept` plus its sockets, driven step by step.
+    pub struct Stepped {
+        accept: Accept,
+        sockets: Box<[ServerSocketInfo]>,
+        cmd_rx: UnboundedReceiver<ServerCommand>,
+        events: mio::Events,
+    }
+
+    impl Stepped {
+        /// Poll + waker queue; workers are created against the returned queue before `new`.
+        pub fn poll_and_queue() -> io::Result<(Poll, Wq)> {
+            let poll = Poll::new()?;
+            let wq = WakerQueue::new(poll.registry())?;
+            Ok((poll, Wq(wq)))
+        }
+
+        /// Listener `i` gets token `i`, as `ServerBuilder` allocates them.
+        pub fn new(
+            poll: Poll,
+            wq: &Wq,
+            listeners: Vec<Listener>,
+            handles: Vec<AcceptHandle>,
+        ) -> io::Result<Self> {
+            let (cmd_tx, cmd_rx) = unbounded_channel();
+            let sockets = listeners
+                .into_iter()
+                .enumerate()
+                .map(|(i, l)| (i, l.0))
+                .collect();
+            let (accept, sockets) = Accept::new_with_sockets(
+                poll,
+                wq.0.clone(),
+                sockets,
+                handles.into_iter().map(|h| h.0).collect(),
+                ServerHandle::new(cmd_tx),
+            )?;
+            Ok(Stepped {
+                accept,
+                sockets,
+                cmd_rx,
+                events: mio::Events::with_capacity(256),
+            })
+        }
+
+        /// `Accept::accept(sockets, token)`
+        pub fn accept(&mut self, token: usize) {
+            self.accept.accept(&mut self.sockets, token)
+        }
+
+        /// `Accept::handle_waker(sockets)`; true = the loop would exit.
+        pub fn handle_waker(&mut self) -> bool {
+            self.accept.handle_waker(&mut self.sockets)
+        }
+
+        /// `Accept::process_timeout(sockets)`
+        pub fn process_timeout(&mut self) {
+            self.accept.process_timeout(&mut self.sockets)
+        }
+
+        /// The `poll.poll` call of `poll_with`, with an explicit timeout; returns the ready
+        /// tokens (`usize::MAX` is the waker) without processing them.
+        pub fn poll_events(&mut self, timeout: Option<Duration>) -> io::Result<Vec<usize>> {
+            self.accept.poll.poll(&mut self.events, timeout)?;
+            Ok(self.events.iter().map(|e| usize::from(e.token())).collect())
+        }
+
+        /// One iteration of the body of `Accept::poll_with`, polling with `timeout`.
+        /// Returns the tokens that were ready (in processing order) and whether the loop exits.
+        pub fn turn(&mut self, timeout: Option<Duration>) -> io::Result<(Vec<usize>, bool)> {
+            let toks = self.poll_events(timeout)?;
+            for &t in &toks {
+                if t == usize::from(WAKER_TOKEN) {
+                    if self.accept.handle_waker(&mut self.sockets) {
+                        return Ok((toks, true));
+                    }
+                } else {
+                    self.accept.accept(&mut self.sockets, t);
+                }
+            }
+            self.accept.process_timeout(&mut self.sockets);
+            Ok((toks, false))
+        }
+
+        /// What `ServerInner::handle_cmd` does for pause / resume / stop on the accept side.
+        pub fn wake(&self, cmd: Cmd) {
+            self.accept.waker_queue.wake(match cmd {
+                Cmd::Pause => WakerInterest::Pause,
+                Cmd::Resume => WakerInterest::Resume,
+                Cmd::Stop => WakerInterest::Stop,
+            })
+        }
+
+        /// What `ServerInner::handle_cmd(WorkerFaulted)` does once the new worker is up.
+        pub fn push_worker(&self, handle: AcceptHandle) {
+            self.accept.waker_queue.wake(WakerInterest::Worker(handle.0))
+        }
+
+        /// `WorkerFaulted(idx)` notifications emitted so far (drained).
+        pub fn faulted(&mut self) -> Vec<usize> {
+            let mut v = Vec::new();
+            while let Ok(cmd) = self.cmd_rx.try_recv() {
+                if let ServerCommand::WorkerFaulted(idx) = cmd {
+                    v.push(idx);
+                }
+            }
+            v
+        }
+
+        /// Arrange for the next `accept()` on listener `token` to fail with `err`.
+        pub fn inject_accept_error(&self, token: usize, err: io::Error) {
+            let fd = match self.sockets[token].lst {
+                MioListener::Tcp(ref l) => l.as_raw_fd(),
+                MioListener::Uds(ref l) => l.as_raw_fd(),
+            };
+            crate::socket::verif::inject(fd, err);
+        }
+
+        // read-only views
+        pub fn next(&self) -> usize {
+            self.accept.next
+        }
+        pub fn handle_idxs(&self) -> Vec<usize> {
+            self.accept.handles.iter().map(|h| h.idx()).collect()
+        }
+        pub fn avail(&self, idx: usize) -> bool {
+            self.accept.avail.get_available(idx)
+        }
+        pub fn any_avail(&self) -> bool {
+            self.accept.avail.available()
+        }
+        pub fn paused(&self) -> bool {
+            self.accept.paused
+        }
+        pub fn poll_timeout(&self) -> Option<Duration> {
+            self.accept.timeout
+        }
+        pub fn socket_has_timeout(&self, token: usize) -> bool {
+            self.sockets[token].timeout.is_some()
+        }
+        pub fn waker_queue_len(&self) -> usize {
+            self.accept.waker_queue.guard().len()
+        }
+    }
+
+    /// The real availability bitset.
+    #[derive(Default)]
+    pub struct Avail(Availability);
+
+    impl Avail {
+        pub fn available(&self) -> bool {
+            self.0.available()
+        }
+        pub fn get(&self, idx: usize) -> bool {
+            self.0.get_available(idx)
+        }
+        pub fn set(&mut self, idx: usize, v: bool) {
+            self.0.set_available(idx, v)
+        }
+        pub fn offset(idx: usize) -> (usize, usize) {
+            Availability::offset(idx)
+        }
+    }
 }
